@@ -102,6 +102,31 @@ func runC07(seed int64, n int, dir string, tier string) *Report {
 		d.NodeList.Edges = []*sbom.Edge{{Type: sbom.Edge_contains, From: "root", To: []string{id}}}
 		fixed = append(fixed, d)
 	}
+	// attributes of which a node can carry several that compete for one output field: which one is written
+	// must not depend on the order a map happens to be walked in
+	{
+		d := sbom.NewDocument()
+		d.Metadata.Id = "urn:uuid:competing"
+		d.NodeList.Nodes = []*sbom.Node{{Id: "root", Name: "root", Type: sbom.Node_PACKAGE,
+			Identifiers: map[int32]string{int32(sbom.SoftwareIdentifierType_CPE22): "cpe:/a:x:y:1", int32(sbom.SoftwareIdentifierType_CPE23): "cpe:2.3:a:x:y:1:*:*:*:*:*:*:*", int32(sbom.SoftwareIdentifierType_PURL): "pkg:npm/y@1", int32(sbom.SoftwareIdentifierType_GITOID): "gitoid:blob:sha1:aa"}},
+			{Id: "n", Name: "n", Version: "1", Type: sbom.Node_PACKAGE,
+				Identifiers:    map[int32]string{int32(sbom.SoftwareIdentifierType_CPE22): "cpe:/a:x:n:1", int32(sbom.SoftwareIdentifierType_CPE23): "cpe:2.3:a:x:n:1:*:*:*:*:*:*:*"},
+				Hashes:         map[int32]string{int32(sbom.HashAlgorithm_SHA1): "aa", int32(sbom.HashAlgorithm_SHA256): "bb", int32(sbom.HashAlgorithm_MD5): "cc"},
+				PrimaryPurpose: []sbom.Purpose{sbom.Purpose_LIBRARY, sbom.Purpose_APPLICATION, sbom.Purpose_FRAMEWORK},
+				Licenses:       []string{"MIT", "Apache-2.0"}}}
+		d.NodeList.RootElements = []string{"root"}
+		d.NodeList.Edges = []*sbom.Edge{{Type: sbom.Edge_contains, From: "root", To: []string{"n"}}}
+		for _, f := range allWriterFormats {
+			first := serializeOnce(d, f)
+			rep.OracleEvals++
+			for k := 0; k < 12; k++ {
+				if again := serializeOnce(d, f); again.kind != first.kind || again.out != first.out {
+					rep.Fail(Failure{What: "serializing the same document again gave a different result", Detail: fmt.Sprintf("serialization %d differs from the first (a node with several identifiers, hashes and purposes)", k+2), Input: map[string]any{"format": string(f), "document": docJSON(d)}})
+					break
+				}
+			}
+		}
+	}
 	for i := 0; i < n+len(fixed); i++ {
 		var d *sbom.Document
 		if i >= n {
